@@ -21,6 +21,9 @@ import re
 class Unmodelled(Exception): pass
 class SvSyntaxError(Exception):
   kind = 'grammar'
+class IllegalLiteral(SvSyntaxError):
+  """e.g. 8'dc8: hexadecimal digits after 'd"""
+  kind = 'illegal-literal'
 class SelectOnExpression(SvSyntaxError):
   """`( e )[i]`, `N'( e )[i]`, `N'dV[i]`: IEEE 1800-2017 A.8.4 allows a select only after a (hierarchical) identifier or a
   concatenation — the text is not SystemVerilog"""
@@ -159,7 +162,10 @@ def lit_value(tok):
   size, sign, base, digits = m.groups()
   if sign: raise Unmodelled(f'signed literal {tok}')
   if re.search(r'[xXzZ?]', digits): raise Unmodelled(f'x/z literal {tok}')
-  v = int(digits.replace('_', ''), {'d': 10, 'h': 16, 'b': 2, 'o': 8}[base.lower()])
+  b = {'d': 10, 'h': 16, 'b': 2, 'o': 8}[base.lower()]
+  if not re.fullmatch({10: r'[0-9_]+', 16: r'[0-9a-fA-F_]+', 2: r'[01_]+', 8: r'[0-7_]+'}[b], digits):
+    raise IllegalLiteral(f"illegal digits in the base-{b} literal `{tok}`")
+  v = int(digits.replace('_', ''), b)
   if size is None: raise Unmodelled(f'unsized based literal {tok}')
   return int(size), v
 
